@@ -249,12 +249,29 @@ func main() {
 	if *replayFile != "" {
 		b := prepare()
 		defer os.RemoveAll(b.scratch)
+		w, _ := world.Load(*replayFile)
+		if w != nil && w.Expect != nil && strings.HasPrefix(w.Expect.Signature, "C16/data-race") {
+			// a race witness is replayed on Engine R: the world is run 200 times free-running under -race
+			report, msg := b.raceReplay(*replayFile)
+			if msg != "" {
+				os.RemoveAll(b.scratch)
+				die2("race replay: %s", msg)
+			}
+			code := 0
+			if report != "" {
+				fmt.Printf("%s\nVIOLATION property=C16 replay=%s\n", report, *replayFile)
+				code = 1
+			} else {
+				fmt.Printf("replay %s: no data race reported in 200 free-running executions\n", *replayFile)
+			}
+			os.RemoveAll(b.scratch)
+			os.Exit(code)
+		}
 		r, out, err := b.replayFresh(*replayFile, 10*time.Minute)
 		if err != nil {
 			os.RemoveAll(b.scratch)
 			die2("replay: %v\n%s", err, out)
 		}
-		w, _ := world.Load(*replayFile)
 		fmt.Printf("replay %s: signature=%q log_hash=%s\n%s\n", *replayFile, r.Signature, r.LogHash, r.Detail)
 		code := 0
 		if r.Signature != "" {
@@ -297,6 +314,7 @@ func main() {
 	kf := known.Load(filepath.Join(verif, "known_findings.json"))
 	var violLines, knownLines []string
 	violations := 0
+	knownSeen := map[string]int{}
 
 	// 1. corpus: committed corner-case and regression worlds must pass
 	corpus, _ := filepath.Glob(filepath.Join(verif, "replays", "corpus", *prop, "*.json"))
@@ -437,10 +455,50 @@ func main() {
 		die2("engine reported tool trouble: %s", strings.Join(total.Tool, "\n"))
 	}
 
+	// 3a. C16 only: Engine R, the same worlds free-running under the race detector on the untouched tree
+	raceInfo := map[string]any{}
+	if *prop == "C16" {
+		nw := 1500
+		if *tier == "thorough" {
+			nw = 40000
+		}
+		races, info, msg := b.raceRun(seed, *tier, nw, outDir)
+		if msg != "" {
+			cleanup()
+			die2("engine R: %s", msg)
+		}
+		raceInfo = info
+		for _, rc := range races {
+			if k := kf.Match(*prop, rc.sig, rc.w); k != nil {
+				knownSeen[k.ID]++
+				continue
+			}
+			os.MkdirAll(filepath.Join(verif, "replays"), 0o755)
+			dst := filepath.Join(verif, "replays", fmt.Sprintf("C16-race-seed%d-w%d.json", seed, rc.w.Index))
+			rc.w.Expect = &world.Expect{Signature: rc.sig, Detail: rc.report}
+			rc.w.Save(dst)
+			violations++
+			fmt.Printf("--- violation %s (world %d, seed %d, engine R)\n%s\n", rc.sig, rc.w.Index, seed, rc.report)
+			violLines = append(violLines, fmt.Sprintf("VIOLATION property=%s replay=%s", *prop, dst))
+		}
+		fmt.Printf("engine R (race detector, untouched tree): %v\n", info)
+	}
+
+	// 3b. C19 only: validate the in-process rewrite of main.go (R7) against the real binary
+	xchecked := 0
+	if *prop == "C19" {
+		n, msg := b.crossCheckCLI(seed, *tier, outDir)
+		if msg != "" {
+			cleanup()
+			die2("in-process CLI and real binary disagree (instrumentation problem, not a violation): %s", msg)
+		}
+		xchecked = n
+		fmt.Printf("real-binary cross-check: %d worlds, stdout and exit status identical\n", n)
+	}
+
 	// 4. violations: group by signature, lowest index first
 	sort.Slice(total.Viol, func(i, j int) bool { return total.Viol[i].Index < total.Viol[j].Index })
 	seenSig := map[string]bool{}
-	knownSeen := map[string]int{}
 	reported := 0
 	for _, v := range total.Viol {
 		if seenSig[v.Signature] {
@@ -538,6 +596,8 @@ func main() {
 			"notes":         b.notes,
 		},
 		"corpus_worlds_replayed": corpusRun,
+		"real_binary_crosschecked_worlds": xchecked,
+		"engine_R_race_detector":          raceInfo,
 		"known_findings_matched": knownSeen,
 		"cut_short_by_wall_cap":  total.CutShort,
 		"workers":                workers,
@@ -588,4 +648,200 @@ func tail(s string, n int) string {
 		return s[len(s)-n:]
 	}
 	return s
+}
+
+type cliRecord struct {
+	Index  int      `json:"index"`
+	Argv   []string `json:"argv"`
+	Path   string   `json:"path"`
+	Data   string   `json:"data"`
+	Stdout string   `json:"stdout"`
+	Exit   int      `json:"exit"`
+}
+
+// crossCheckCLI builds the untouched main package with the default toolchain and compares it,
+// byte for byte, with the in-process runs of fault-free worlds at shipped constants.
+func (b *build) crossCheckCLI(seed int64, tier, outDir string) (int, string) {
+	real := filepath.Join(b.scratch, "gophersat-real")
+	if out, err := run(repo, "go", "build", "-o", real, "."); err != nil {
+		return 0, "cannot build the real binary: " + err.Error() + "\n" + out
+	}
+	recFile := filepath.Join(outDir, "clix.json")
+	c := exec.Command(b.engine, "-test.run", "TestCLIX", "-test.timeout", "0", "-gsim.mode=clix", fmt.Sprintf("-gsim.seed=%d", seed), "-gsim.from=0", "-gsim.to=3000", "-gsim.tier="+tier, "-gsim.out="+recFile, "-gsim.sites="+b.sites)
+	c.Env = env()
+	if out, err := c.CombinedOutput(); err != nil {
+		return 0, "clix run failed: " + err.Error() + "\n" + tail(string(out), 2000)
+	}
+	js, err := os.ReadFile(recFile)
+	if err != nil {
+		return 0, err.Error()
+	}
+	var recs []cliRecord
+	if err := json.Unmarshal(js, &recs); err != nil {
+		return 0, err.Error()
+	}
+	dir := filepath.Join(b.scratch, "clix")
+	os.MkdirAll(dir, 0o755)
+	n := 0
+	for _, r := range recs {
+		os.WriteFile(filepath.Join(dir, r.Path), []byte(r.Data), 0o644)
+		cmd := exec.Command(real, r.Argv[1:]...)
+		cmd.Dir = dir
+		var so strings.Builder
+		cmd.Stdout = &so
+		err := cmd.Run()
+		code := 0
+		if ee, ok := err.(*exec.ExitError); ok {
+			code = ee.ExitCode()
+		} else if err != nil {
+			return n, err.Error()
+		}
+		os.Remove(filepath.Join(dir, r.Path))
+		if code != r.Exit || so.String() != r.Stdout {
+			return n, fmt.Sprintf("world %d argv=%v: real exit=%d stdout=%q; in-process exit=%d stdout=%q", r.Index, r.Argv, code, so.String(), r.Exit, r.Stdout)
+		}
+		n++
+	}
+	if n == 0 {
+		return 0, "no eligible world"
+	}
+	return n, ""
+}
+
+type raceRec struct {
+	sig    string
+	report string
+	w      *world.World
+}
+
+var raceFrame = regexp.MustCompile(`github\.com/crillab/gophersat/([A-Za-z0-9_./()*]+)`)
+
+// raceRun builds the racer against the untouched tree with -race and runs the first nw C16
+// worlds at GOMAXPROCS 1, 4 and 16. A report with a gophersat frame is a violation; a report
+// entirely in harness code is tool trouble.
+func (b *build) raceRun(seed int64, tier string, nw int, outDir string) ([]raceRec, map[string]any, string) {
+	mod := filepath.Join(b.scratch, "racer.mod")
+	os.WriteFile(mod, []byte("module gsim\n\ngo 1.26\n\nrequire github.com/crillab/gophersat v0.0.0\n\nreplace github.com/crillab/gophersat => "+repo+"\n"), 0o644)
+	os.WriteFile(filepath.Join(b.scratch, "racer.sum"), nil, 0o644)
+	bin := filepath.Join(b.scratch, "racer.test")
+	c := exec.Command(goBin, "test", "-c", "-race", "-modfile="+mod, "-o", bin, "./racer")
+	c.Dir = filepath.Join(verif, "sim")
+	var e2 []string
+	for _, kv := range env() {
+		if !strings.HasPrefix(kv, "CGO_ENABLED=") {
+			e2 = append(e2, kv)
+		}
+	}
+	c.Env = append(e2, "CGO_ENABLED=1")
+	if out, err := c.CombinedOutput(); err != nil {
+		return nil, nil, "cannot build the -race binary: " + err.Error() + "\n" + tail(string(out), 2000)
+	}
+	type res struct {
+		out string
+		err error
+	}
+	procs := []int{1, 4, 16}
+	results := make([]res, len(procs))
+	var wg sync.WaitGroup
+	start := time.Now()
+	for i, p := range procs {
+		wg.Add(1)
+		go func(i, p int) {
+			defer wg.Done()
+			cmd := exec.Command(bin, "-test.run", "TestRace", "-test.timeout", "0", fmt.Sprintf("-gsim.seed=%d", seed), "-gsim.from=0", fmt.Sprintf("-gsim.to=%d", nw), "-gsim.tier="+tier)
+			cmd.Env = append(e2, fmt.Sprintf("GOMAXPROCS=%d", p), "GORACE=halt_on_error=0")
+			o, err := cmd.CombinedOutput()
+			results[i] = res{string(o), err}
+		}(i, p)
+	}
+	wg.Wait()
+	info := map[string]any{"worlds_per_setting": nw, "gomaxprocs": procs, "wall_s": time.Since(start).Seconds(), "tree": "untouched " + repo + " built with -race"}
+	var recs []raceRec
+	seen := map[string]bool{}
+	nReports := 0
+	for _, r := range results {
+		lastWorld := -1
+		blocks := strings.Split(r.out, "==================")
+		for _, blk := range blocks {
+			// track the world marker lines that precede each report
+			for _, ln := range strings.Split(blk, "\n") {
+				if strings.HasPrefix(ln, "GSIM-WORLD ") {
+					fmt.Sscanf(ln, "GSIM-WORLD %d", &lastWorld)
+				}
+			}
+			if !strings.Contains(blk, "WARNING: DATA RACE") {
+				continue
+			}
+			nReports++
+			frames := raceFrame.FindAllStringSubmatch(blk, -1)
+			if len(frames) == 0 {
+				return nil, info, "race report without a gophersat frame (harness race):\n" + tail(blk, 1500)
+			}
+			var uniq []string
+			fs := map[string]bool{}
+			for _, f := range frames {
+				name := strings.TrimSuffix(f[1], "()")
+				if !fs[name] && len(uniq) < 2 {
+					fs[name] = true
+					uniq = append(uniq, name)
+				}
+			}
+			sig := "C16/data-race:" + strings.Join(uniq, "+")
+			if seen[sig] || lastWorld < 0 {
+				continue
+			}
+			seen[sig] = true
+			// the race happened in world lastWorld (or one that was still finishing); regenerate it
+			o, err := exec.Command(filepath.Join(verif, "bin", "gsworld"), "-prop", "C16", "-seed", fmt.Sprint(seed), "-idx", fmt.Sprint(lastWorld), "-tier", tier).Output()
+			if err != nil {
+				return nil, info, "gsworld failed: " + err.Error()
+			}
+			var w world.World
+			if json.Unmarshal(o, &w) != nil {
+				return nil, info, "gsworld output unreadable"
+			}
+			recs = append(recs, raceRec{sig: sig, report: strings.TrimSpace(tail(blk, 2500)), w: &w})
+		}
+		if r.err != nil && !strings.Contains(r.out, "WARNING: DATA RACE") {
+			return nil, info, "racer process failed: " + r.err.Error() + "\n" + tail(r.out, 1500)
+		}
+	}
+	info["race_reports"] = nReports
+	info["distinct_race_signatures"] = len(recs)
+	return recs, info, ""
+}
+
+func (b *build) raceReplay(file string) (string, string) {
+	mod := filepath.Join(b.scratch, "racer.mod")
+	os.WriteFile(mod, []byte("module gsim\n\ngo 1.26\n\nrequire github.com/crillab/gophersat v0.0.0\n\nreplace github.com/crillab/gophersat => "+repo+"\n"), 0o644)
+	os.WriteFile(filepath.Join(b.scratch, "racer.sum"), nil, 0o644)
+	bin := filepath.Join(b.scratch, "racer.test")
+	var e2 []string
+	for _, kv := range env() {
+		if !strings.HasPrefix(kv, "CGO_ENABLED=") {
+			e2 = append(e2, kv)
+		}
+	}
+	c := exec.Command(goBin, "test", "-c", "-race", "-modfile="+mod, "-o", bin, "./racer")
+	c.Dir = filepath.Join(verif, "sim")
+	c.Env = append(e2, "CGO_ENABLED=1")
+	if out, err := c.CombinedOutput(); err != nil {
+		return "", "cannot build the -race binary: " + err.Error() + "\n" + tail(string(out), 2000)
+	}
+	cmd := exec.Command(bin, "-test.run", "TestRace", "-test.timeout", "0", "-gsim.to=1", "-gsim.world="+file)
+	cmd.Env = append(e2, "GOMAXPROCS=4", "GORACE=halt_on_error=0")
+	o, _ := cmd.CombinedOutput()
+	out := string(o)
+	i := strings.Index(out, "WARNING: DATA RACE")
+	if i < 0 {
+		return "", ""
+	}
+	blk := out[i:]
+	if j := strings.Index(blk, "=================="); j > 0 {
+		blk = blk[:j]
+	}
+	if !strings.Contains(blk, "github.com/crillab/gophersat/") {
+		return "", "race report without a gophersat frame:\n" + tail(blk, 1500)
+	}
+	return strings.TrimSpace(blk), ""
 }
